@@ -200,7 +200,8 @@ class DiskCache:
             self._cache.delete(key + self._HMAC_SUFFIX)
             return False, None
 
-        if not hmac.compare_digest(stored_hmac, expected_hmac):
+        # Compare as bytes: compare_digest raises TypeError on non-ASCII str, and a damaged signature may hold anything
+        if not hmac.compare_digest(stored_hmac.encode("utf-8", "surrogatepass"), expected_hmac.encode()):
             logger.warning(
                 "Cache HMAC mismatch for key %s — possible tampering, evicting",
                 key,
